@@ -12,8 +12,10 @@ LEVEL = "model_checking"
 FAMILY = "blacklist"
 
 BASE = dict(MaxQ=1, CanExpire=True, Churn=True, RecheckAtPublish=True, CheckFwd=True, CheckAuthor=True, CheckNewStream=True,
-            CheckPending=True, ApiCloses=True, ApiClears=True, ApiNotifies=True, GraftNeedsStream=True, ApiSkipsIfPresent=False, DrainAfterClose=False)
-INVS = ["TypeOK", "P_C16_NoInject", "P_C16_Refuse", "P_C16_Api", "P_C16_ApiQueue"]
+            CheckPending=True, ApiCloses=True, ApiClears=True, ApiNotifies=True, GraftNeedsStream=True, ApiSkipsIfPresent=False, DrainAfterClose=False, PurgeNeedsRtPeer=False)
+INVS = ["TypeOK", "P_C16_NoInject", "P_C16_Refuse", "P_C16_Api", "P_C16_ApiQueue", "P_C16_ApiHadQueue"]
+# with D6 as found (GRAFT accepted without outbound stream) everything except the "any" part of P_C16_Api still holds
+INVS_D6 = ["TypeOK", "P_C16_NoInject", "P_C16_Refuse", "P_C16_ApiQueue", "P_C16_ApiHadQueue", "FanoutNeedsStream"]
 # one mechanism removed -> the predicate that must fail (non-vacuity)
 MUST_FAIL = [("asfound-D13", {"RecheckAtPublish": False}, "P_C16_NoInject"),
              ("no-fwd-check", {"CheckFwd": False}, "P_C16_NoInject"),
@@ -25,24 +27,29 @@ MUST_FAIL = [("asfound-D13", {"RecheckAtPublish": False}, "P_C16_NoInject"),
              ("api-no-notify", {"ApiNotifies": False}, "P_C16_Api"),
              ("api-skips-if-present", {"ApiSkipsIfPresent": True}, "P_C16_Api"),
              ("drain-after-close", {"DrainAfterClose": True, "MaxQ": 2}, "P_C16_Api"),
-             ("asfound-D6", {"GraftNeedsStream": False}, "P_C16_Api")]
+             ("asfound-D6", {"GraftNeedsStream": False}, "P_C16_Api"),
+             # only meaningful on top of D6: a peer in the mesh while its stream is still being opened
+             ("purge-needs-rtpeer", {"GraftNeedsStream": False, "PurgeNeedsRtPeer": True, "_invs": ["P_C16_ApiHadQueue"]}, "P_C16_ApiHadQueue")]
 
 
-def mc_cfg(over=None, msgs=True, churn=True):
+def mc_cfg(over=None, msgs=True, churn=True, invs=None):
     c = dict(BASE)
     c["Churn"] = churn
     c.update(over or {})
+    invs = c.pop("_invs", invs) or INVS
     consts = {"Peers": "Peers <- MCPeers", "Life": "Life <- MCLifePeers"}
     if msgs:
         consts.update({"Msgs": "Msgs <- MCMsgs", "Fwd": "Fwd <- MCFwd", "Author": "Author <- MCAuthor"})
     else:
         consts.update({"Msgs": "Msgs <- NoMsgs", "Fwd": "Fwd <- NoFn", "Author": "Author <- NoFn"})
     consts.update(c)
-    return vlib.cfg_text(constants=consts, invariants=INVS, view="MCView")
+    return vlib.cfg_text(constants=consts, invariants=invs, view="MCView")
 
 
 def model_check(ctx):
-    jobs = [("mc-full", mc_cfg(), None), ("mc-pipe", mc_cfg(churn=False), None), ("mc-life", mc_cfg(msgs=False), None)]
+    jobs = [("mc-full", mc_cfg(invs=INVS + ["FanoutNeedsStream"]), None), ("mc-pipe", mc_cfg(churn=False), None),
+            ("mc-life", mc_cfg(msgs=False), None),
+            ("mc-asfound-D6-rest", mc_cfg({"GraftNeedsStream": False}, invs=INVS_D6), None)]
     if ctx.thorough:
         jobs.append(("mc-q2", mc_cfg({"MaxQ": 2}), None))
     for name, over, prop in MUST_FAIL:
@@ -84,6 +91,15 @@ def plan_scenarios(ctx, sits):
             dropped[k] = dropped.get(k, 0) + 1
             continue
         member = None
+        mem = ""
+        if s["pos"] in ("pending-mesh", "repending-mesh"):
+            # between queue creation and stream establishment, already in the mesh by its own GRAFT (D6's path)
+            if s["stage"] != "none":
+                k = "pending-mesh+in-flight: the membership dimension is independent of the pipeline (covered by pending x stages)"
+                dropped[k] = dropped.get(k, 0) + 1
+                continue
+            mem = "mesh"
+            s = dict(s, pos=s["pos"][:-len("-mesh")])
         if s["pos"].startswith("gated-"):
             # the writer sits in Write with one popped RPC and a backlog is queued; `member` says why the node sends to the peer
             member = s["pos"][len("gated-"):]
@@ -93,7 +109,7 @@ def plan_scenarios(ctx, sits):
             dropped[k] = dropped.get(k, 0) + 1
             continue
         impls = ["map", "timed"]
-        if not ctx.thorough and s["how"] != "both":     # Add's return value differs per implementation: always run both
+        if not ctx.thorough and s["how"] != "both" and not mem:   # Add's return value differs per implementation: always run both
             impls = [rng.choice(impls)]
         for impl in impls:
             paths = ["queue"]
@@ -112,7 +128,7 @@ def plan_scenarios(ctx, sits):
                 if bk and path != "queue":
                     continue
                 sc = dict(s)
-                sc.update(bk=bk)
+                sc.update(bk=bk, mem=mem)
                 sc.update(impl=impl, path=path, expire=(impl == "timed" and s["stage"] == "none" and path == "queue" and s["how"] != "both"))
                 out.append(sc)
                 if ctx.thorough and s["stage"] == "sendQ" and s["how"] == "api":
@@ -190,6 +206,18 @@ def coverage(scns_lines):
                     if pos in ("mesh", "fanout", "conn"):
                         inc("both:%s:%s" % (impl, pos))
             how = "api"
+        if cfg.get("mem") == "mesh":
+            # BlacklistPeer (or, for contrast, a direct Add) hit a peer that was in the mesh WITHOUT an established outbound
+            # stream: queue registered, router never told about the peer, mesh entry by the peer's own GRAFT
+            first = sc[bl_line]["c16"]["bl"][0]
+            b4 = sc[bl_line - 1]["st"]
+            if "p1" in b4["mesh"].get("T1", []) and "p1" in b4["peers"] and "p1" not in b4.get("gsPeers", {}):
+                inc("pendmesh:" + cfg["how"])
+                api_l = next((k for k, ln in enumerate(sc) if k > 0 and any(x["how"] == "api" for x in ln["c16"]["bl"])), None)
+                if api_l is not None and "p1" in sc[api_l - 1]["st"]["mesh"].get("T1", []) and "p1" not in sc[api_l]["st"]["mesh"].get("T1", []):
+                    inc("pendmesh:left-mesh-at-BlacklistPeer")
+                if cfg["how"] == "direct" and any("p1" in ln["st"]["mesh"].get("T1", []) for ln in sc[bl_line:]):
+                    inc("pendmesh:direct-stays-in-mesh(no-statement)")
         if pos == "gated":
             api_line = next((k for k, ln in enumerate(sc) if k > 0 and any(x["how"] == "api" for x in ln["c16"]["bl"])), None)
             if api_line is not None:
@@ -278,6 +306,7 @@ NEED = ["impl:map", "impl:timed", "how:api", "how:direct", "pos:never", "pos:pen
         "gated:queued-rpcs-dropped", "api:queue-closed", "expired",
         "both:timed:add-returned-false", "both:map:add-returned-true", "both:timed:mesh", "both:timed:fanout", "both:timed:conn",
         "both:map:mesh", "both:map:fanout", "both:map:conn",
+        "pendmesh:api", "pendmesh:both", "pendmesh:direct", "pendmesh:left-mesh-at-BlacklistPeer",
         "backlog:mesh", "backlog:mesh-urgent", "backlog:topic", "backlog:flood", "backlog:directpeer", "backlog:fanout"]
 
 
@@ -339,7 +368,7 @@ def run(ctx):
     for v in viols:
         sc = scns_lines[v["scn"]]
         # the signature names WHAT failed and in which situation class; how/by/impl/path are in the detail and the replay
-        sig = {k: v[k] for k in ("kind", "clause", "inflight", "stage", "pos")}
+        sig = {k: v[k] for k in ("kind", "clause", "inflight", "stage", "pos", "hadq")}
         what = {"P_C16_NoInject": "message %s (forwarder/author %s blacklisted, %s) was %s after the blacklisting" %
                                   (v["m"], v["p"], v["clause"], {"deliver": "delivered", "subscriber": "handed to a subscriber",
                                                                  "forward": "forwarded", "wire": "written to a third party"}.get(v["kind"], v["kind"])),
@@ -355,7 +384,7 @@ def run(ctx):
     for sc in scns_lines:
         cfg = sc[0]["act"]["cfg"]
         if any(ln.get("c16", {}).get("bl") for ln in sc[1:]):
-            nontrivial.add(json.dumps({k: cfg[k] for k in ("pos", "how", "by", "stage", "impl", "path", "bk")}, sort_keys=True))
+            nontrivial.add(json.dumps({k: cfg[k] for k in ("pos", "how", "by", "stage", "impl", "path", "bk", "mem")}, sort_keys=True))
     missing = [n for n in NEED if not hit.get(n)]
     known = vlib.load_findings(ctx.pid)
     fresh = [v for v in ctx.violations if not any(vlib.sig_matches(f, v) for f in known)]
